@@ -142,6 +142,8 @@ class TopoRunner:
                         rp[k] = r
                         continue
                 sp[k] = v if isinstance(v, str) else tok(v)
+            if str(d.get("NodeID")).startswith("fixed-"):
+                sp["~cid"] = str(d.get("NodeID"))[6:]        # caller-supplied id (names the explicit id, see spec CidUsed)
             el[p] = {"cls": str(d.get("Class")), "type": str(d.get("Type")), "name": str(d.get("Name")),
                      "par": path(par[n]) if par[n] is not None else "", "sp": sp, "rp": rp}
             paths[d.get("NodeID")] = p
@@ -162,6 +164,9 @@ class TopoRunner:
             anomalies.append("unexpected edge %s -%s- %s" % (path(u), r, path(v)))
         conn.sort()
         self._paths, self._ids = paths, ids
+        allids = [d.get("NodeID") for d in N.values()]
+        if len(set(allids)) != len(allids):
+            anomalies.append("node ids are not distinct")
         return {"el": el, "conn": conn, "anomalies": sorted(anomalies), "dup": sorted(dup)}
 
     # ------------------------------------------------------------------------------------------- handles
@@ -256,8 +261,9 @@ class TopoRunner:
         none = {"k": "none"}
         sub = self.flavour == "substrate"
         if op == "AddNode":
+            nid = ("fixed-" + o["cid"]) if o.get("cid") else (self._sid() if sub else None)
             t.add_node(name=conc_name(o["name"]), site=o["site"], ntype=NodeType[o["ntype"]],
-                       node_id=self._sid() if sub else None, **self._rp_kwargs(o.get("rp")))
+                       node_id=nid, **self._rp_kwargs(o.get("rp")))
             return none
         if op == "RemoveNode":
             t.remove_node(name=o["name"])
@@ -342,8 +348,8 @@ class TopoRunner:
             return none
         if op == "AddNodeService":
             self.need(o["n"])
-            self.elem(o["n"]).add_network_service(name=conc_name(o["name"]), nstype=ServiceType[o["nstype"]],
-                                                  node_id=self._sid() if sub else None)
+            nid = ("fixed-" + o["cid"]) if o.get("cid") else (self._sid() if sub else None)
+            self.elem(o["n"]).add_network_service(name=conc_name(o["name"]), nstype=ServiceType[o["nstype"]], node_id=nid)
             return none
         if op == "RemoveNodeService":
             self.need(o["n"])
